@@ -123,11 +123,34 @@ InstN(n, bp, delta, sc, tcg, aub, bub2, aeq, beq2) ==
 \* ---- randomly drawn integer instances (TLC's RandomElement, reproducible with -seed): the
 \* degeneracy classes above are exhaustive but coarse; these fill the space between them.
 \* Data in quarters: g4, H4 (symmetric), bounds bd4, radius delta4, constant c4.
-InstX(n, g4, H4, bd4, delta4, c4, tcg) ==
+\* A rational LOWER bound of the Cauchy decrease when the trust region may bind (data in quarters, result in
+\* real units).  Along d = FreeDir the model decreases by phi(t) = t gd - t^2 kap / 2, increasing up to its
+\* minimiser; the Cauchy step length is min(first bound hit, delta / |d|, minimiser).  delta / |d| is irrational
+\* in general: it is replaced by the smaller delta / CeilSqrt(|d|^2), so the value below never exceeds the
+\* true Cauchy decrease and "decrease >= CauchyLowerTR" is implied by the property (equal when |d|^2 is a square).
+CeilSqrt(m) == CHOOSE k \in 0..(m + 1) : k * k >= m /\ (k = 0 \/ (k - 1) * (k - 1) < m)
+CauchyLowerTR(g4, H4, bd4, delta4) ==
+  LET n == Len(g4)
+      d == FreeDir(g4, bd4)                   \* 4 x the real direction
+      gd4 == -Dot(g4, d)                      \* 16 x |g_free|^2
+      Hd == [a \in 1..n |-> SumTo([b \in 1..n |-> H4[a][b] * d[b]], n)]
+      kap4 == Dot(d, Hd)                      \* 64 x the real curvature along d
+      S == {i \in 1..n : (d[i] > 0 /\ bd4[i][2] < Inf) \/ (d[i] < 0 /\ bd4[i][1] > -Inf)}
+      T == {IF d[i] > 0 THEN Rat(bd4[i][2], d[i]) ELSE Rat(-bd4[i][1], -d[i]) : i \in S}
+           \cup {Rat(delta4, CeilSqrt(gd4))}
+           \cup (IF kap4 > 0 THEN {Rat(4 * gd4, kap4)} ELSE {})
+      t == CHOOSE a \in T : \A u \in T : RLe(a, u)
+      \* phi(t) = t gd4 / 16 - t^2 kap4 / 128  with t = p / q
+  IN IF gd4 = 0 THEN <<0, 1>>
+     ELSE Rat(8 * t[1] * t[2] * gd4 - t[1] * t[1] * kap4, 128 * t[2] * t[2])
+
+InstXc(n, g4, H4, bd4, delta4, c4, tcg, cau) ==
   [n |-> n, g |-> g4, bp |-> [i \in 1..n |-> "explicit"], bd |-> bd4, hk |-> "explicit", H |-> H4,
    delta |-> delta4, sc |-> 0, tcg |-> tcg, rows |-> "none", eqs |-> "none", unit |-> 4, c4 |-> c4,
    improvable |-> Improvable(g4, bd4), descent |-> Descent(g4, bd4), boxinside |-> FALSE,
-   cauchy |-> <<-1, 1>>]
+   cauchy |-> cau]
+InstX(n, g4, H4, bd4, delta4, c4, tcg) ==
+  InstXc(n, g4, H4, bd4, delta4, c4, tcg, CauchyLowerTR(g4, H4, bd4, delta4))
 \* a deterministic scrambler instead of RandomElement: TLC re-evaluates a LET-bound random value
 \* at every reference, which would e.g. make a "symmetric" matrix asymmetric
 Rnd(i, k, m) == ((((i * 7919 + k * 10473 + 12345) % 10007) * (((i + 31 * k) % 97) + 1)) % 10007) % m
@@ -141,11 +164,20 @@ RandT(i) == LET n == Pick(<<2, 3, 3, 4>>, i, 1)
                      RSym(i, n, <<-6, -4, -3, -2, -1, 0, 0, 1, 2, 3, 4, 6>>, 100),
                      [j \in 1..n |-> <<Pick(Lows4, i, 20 + j), Pick(Highs4, i, 30 + j)>>],
                      Pick(<<2, 4, 6, 8, 11, 14, 16, 24>>, i, 2), 0, TRUE)
+\* tight boxes partly inside the trust region, strongly coupled Hessians without zero entries: the
+\* truncated CG hits a bound at a nonzero value, goes on in the other variables and ends on the boundary
+RandC(i) == LET n == Pick(<<3, 3, 4, 3>>, i, 1)
+            IN InstX(n, [j \in 1..n |-> Pick(<<-5, -4, -3, -2, -1, 1, 2, 3, 4, 5>>, i, 10 + j)],
+                     RSym(i, n, <<-6, -5, -4, -3, -2, 2, 3, 4, 5, 6>>, 100),
+                     [j \in 1..n |-> <<Pick(<<-4, -3, -2, -1, 0, -1, -2>>, i, 20 + j),
+                                        Pick(<<1, 2, 3, 4, 1, 2, 0, 3>>, i, 30 + j)>>],
+                     Pick(<<3, 4, 5, 6, 7>>, i, 2), 0, TRUE)
 RandG(i) == LET n == Pick(<<1, 1, 2, 2>>, i, 1)
-            IN InstX(n, [j \in 1..n |-> Pick(<<-24, -8, -2, -1, 0, 0, 1, 2, 8, 24>>, i, 10 + j)],
+            IN InstXc(n, [j \in 1..n |-> Pick(<<-24, -8, -2, -1, 0, 0, 1, 2, 8, 24>>, i, 10 + j)],
                      RSym(i, n, <<-8, -4, -1, 0, 0, 1, 4, 16, 48>>, 100),
                      [j \in 1..n |-> <<Pick(<<-Inf, -40, -6, -4, 0, 0>>, i, 20 + j), Pick(<<0, 4, 6, 20, 40, Inf>>, i, 30 + j)>>],
-                     Pick(<<1, 2, 3, 4, 5, 6, 7, 9, 12>>, i, 2), Pick(<<-8, -4, -1, 1, 4, 8>>, i, 3), TRUE)
+                     Pick(<<1, 2, 3, 4, 5, 6, 7, 9, 12>>, i, 2), Pick(<<-8, -4, -1, 1, 4, 8>>, i, 3), TRUE,
+                     <<-1, 1>>)    \* geometry instances: no Cauchy oracle (the tangential solver is not called)
 RandN(i) == LET n == 2
                 m == Pick(<<1, 2, 2>>, i, 1)
                 R7 == <<-7, -5, -4, -3, -2, -1, 0, 1, 2, 3, 4, 5, 7>>
@@ -194,6 +226,7 @@ UniverseP(id) ==
                         g \in Vecs(2, {-2, -1, 1}), bp \in Vecs(2, {"box1", "half", "wide", "inf", "lonear"}),
                         hk \in HKinds, d \in {8, 16}, sc \in {0, 20}, rows \in {"poly", "wedge"}}
     [] id = "rndt" -> {RandT(i) : i \in 1..24000}
+    [] id = "rndc" -> {RandC(i) : i \in 1..40000}
     [] id = "rndg" -> {RandG(i) : i \in 1..16000}
     [] id = "rndn" -> {RandN(i) : i \in 1..40000}
     [] id = "nrm2" -> {InstN(2, bp, d, 0, tcg, <<r1, r2>>, <<b1, b2>>, <<e>>, <<be>>) :
